@@ -82,7 +82,15 @@ func bbBuild(r *simkit.Run) *bbWorld {
 	avp33 := c.MajorityACCEPT(p0, pa, Ba)
 	nextFacts := []base.INITBallotFact{isaac.NewINITBallotFact(pn, Ba, valuehash.RandomSHA256(), nil), isaac.NewINITBallotFact(pn, Ba, valuehash.RandomSHA256(), nil)}
 
-	// expels of one remote node (never the local node 0), when the suffrage is big enough
+	// expels of one remote node (never the local node 0), when the suffrage is big enough; with four or more nodes
+	// sometimes a second, different expel set (a partition: each side expels a node of the other side), and the
+	// expelled nodes vote themselves (plain facts, or the expel set that does not name them)
+	type expelSet struct {
+		expelled int
+		expels   []base.SuffrageExpelOperation
+		fact     base.INITBallotFact
+	}
+
 	var (
 		expels     []base.SuffrageExpelOperation
 		expelFacts []util.Hash
@@ -90,21 +98,39 @@ func bbBuild(r *simkit.Run) *bbWorld {
 		ievp       isaac.INITExpelVoteproof
 		scFact     isaac.SuffrageConfirmBallotFact
 		expelled   = -1
+		sets       []expelSet
 	)
 
-	if n >= 3 && r.Flag("expels") {
-		expelled = 1 + r.Choose(n-1)
-
+	mkExpelSet := func(x int, proposal util.Hash) expelSet {
 		var signers []base.LocalNode
+
 		for i, nd := range c.Nodes {
-			if i != expelled {
+			if i != x {
 				signers = append(signers, nd)
 			}
 		}
 
-		expels = []base.SuffrageExpelOperation{c.Expel(c.Nodes[expelled].Address(), H-1, H+5, signers)}
+		ops := []base.SuffrageExpelOperation{c.Expel(c.Nodes[x].Address(), H-1, H+5, signers)}
+
+		return expelSet{expelled: x, expels: ops, fact: isaac.NewINITBallotFact(p0, w.B32, proposal, common.ExpelFactHashes(ops))}
+	}
+
+	if n >= 3 && r.Flag("expels") {
+		expelled = 1 + r.Choose(n-1)
+
+		first := mkExpelSet(expelled, pa)
+		sets = append(sets, first)
+		expels, expelInit = first.expels, first.fact
 		expelFacts = common.ExpelFactHashes(expels)
-		expelInit = isaac.NewINITBallotFact(p0, w.B32, pa, expelFacts)
+
+		if n >= 4 && r.Flag("two_expel_sets") {
+			y := 1 + r.Choose(n-2)
+			if y >= expelled {
+				y++
+			}
+
+			sets = append(sets, mkExpelSet(y, []util.Hash{pa, pb}[r.Choose(2)]))
+		}
 
 		var sfs []base.BallotSignFact
 		for i, nd := range c.Nodes {
@@ -150,9 +176,23 @@ func bbBuild(r *simkit.Run) *bbWorld {
 			}
 
 			for t := 0; t < times; t++ {
+				// the expel sets this node may vote for: those that do not name it
+				var usable []expelSet
+
+				for _, es := range sets {
+					if es.expelled != i {
+						usable = append(usable, es)
+					}
+				}
+
 				switch {
-				case expelled >= 0 && i != expelled && r.Chance(1, 2):
-					add(i, common.INITBallot(w.avp32, c.SignINIT(nd, expelInit), expels), fmt.Sprintf("node%d INIT h33r0 with expel of node%d", i, expelled))
+				case len(usable) > 0 && r.Chance(1, 2):
+					es := usable[r.Choose(len(usable))]
+					if len(sets) > 1 {
+						r.Probe("ballots_with_two_expel_sets")
+					}
+
+					add(i, common.INITBallot(w.avp32, c.SignINIT(nd, es.fact), es.expels), fmt.Sprintf("node%d INIT h33r0 with expel of node%d", i, es.expelled))
 				default:
 					k := pick()
 					if t == 1 {
